@@ -148,7 +148,10 @@ def cash_case(draw):
     trail = {"vec": (), "cols": (draw(st.integers(1, 3)),), "cube": (2, 2)}[shape_kind]
     pos = c["kind"] in POSITIVE
     lim = 8.0 if dtype == "float32" else draw(st.sampled_from([8.0, 8.0, 1e3]))
-    if c.get("a"):
+    if c["kind"] == "entropic_rm" and draw(st.integers(0, 2)) == 0:
+        # the entropic risk measure (and its cash) must not overflow for any finite sample: a|x| far beyond the exponent range
+        lim = draw(st.sampled_from([50.0, 300.0, 1e3]))
+    elif c.get("a"):
         lim = min(lim, 20.0 / c["a"])
     if c["kind"] == "oce_exp":
         lim = min(lim, 6.0)
@@ -280,7 +283,7 @@ def price_case(draw):
         sc["deriv"]["type"] = "EuropeanForwardStartOption"
         sc["deriv"]["strike"], sc["deriv"]["start_steps"] = 1.0, 0
     sc["n_paths"] = max(2, sc["n_paths"])
-    sc["crit"] = draw(criterion_spec(kinds=["entropic_rm", "entropic_loss", "es", "qcvar", "user_exp", "user_mean"]))
+    sc["crit"] = draw(criterion_spec(kinds=["entropic_rm", "entropic_loss", "es", "qcvar", "user_exp", "user_mean", "isoelastic", "user_power"]))
     sc["shift"] = draw(st.sampled_from([0.5, -0.25, 2.0, 0.125]))
     sc["n_times"] = draw(st.integers(2, 3))
     return sc
@@ -294,15 +297,31 @@ def check_price(case, ctx):
     n = case["n_paths"]
     seed = case["sim_seed"]
     eps = EPS["float64"]
+    if c["kind"] in POSITIVE:
+        # power / log utilities need a positive P&L: the contract pays 5 less (an endowment, registered as a clause);
+        # their certainty equivalent is NOT translation invariant, so the price really is -CE(portfolio - payoff)
+        deriv.add_clause("endowment", lambda d, payoff: payoff - 5.0)
+
+    init = None
+    if seed % 3 == 0 and case["ul"]["type"] in ("BrownianStock", "MertonJumpStock", "KouJumpStock", "LocalVolatilityStock"):
+        init = (1.0 + (seed % 7 - 3) / 16.0,)  # quotes are made from today's spot, not from the default initial state
 
     def price(**kw):
         torch.manual_seed(seed)
+        if init is not None:
+            kw["init_state"] = init
         return hedger.price(deriv, hedge=hedge, n_paths=n, **kw)
 
     with ctx.sut("C06/price"):
         p0 = price()
         with torch.no_grad():
             sample = hedger.compute_portfolio(deriv, hedge=hedge) - deriv.payoff()
+    s0 = deriv.ul().spot
+    ctx.check(s0.shape[0] == n, "C06/price/simulated-paths", f"price(n_paths={n}) left {s0.shape[0]} simulated paths")
+    if init is not None:
+        ctx.check(bool((s0[:, 0] == torch.tensor(init[0], dtype=s0.dtype)).all()), "C06/price/simulated-paths",
+                  f"price(init_state={init}) simulated paths starting at {s0[:2, 0].tolist()}")
+        ctx.cls("price:init_state-given")
     if not torch.isfinite(sample).all():
         ctx.cls("skipped:non-finite-sample")
         return
@@ -311,7 +330,7 @@ def check_price(case, ctx):
     col = sample.tolist()
     lo, hi = min(col), max(col)
     a = c.get("a") or 1.0
-    if a * max(abs(lo), abs(hi)) > 30:
+    if a * max(abs(lo), abs(hi)) > 30 or (c["kind"] in POSITIVE and lo <= 0.5):
         ctx.cls("skipped:extreme-sample")
         return
     N = len(col)
@@ -334,14 +353,14 @@ def check_price(case, ctx):
     if c["kind"] == "entropic_rm":
         torch.manual_seed(seed)
         with ctx.sut("C06/compute_loss"):
-            l0 = hedger.compute_loss(deriv, hedge=hedge, n_paths=n, enable_grad=False)
+            l0 = hedger.compute_loss(deriv, hedge=hedge, n_paths=n, enable_grad=False, **({"init_state": init} if init is not None else {}))
         ctx.check(abs(float(l0) - g) <= 16 * eps * (1 + abs(g)), "C06/price/equals-entropic-loss", f"price {g!r} != loss {float(l0)!r}")
     # (d) n_times averages consecutive evaluations of the same RNG stream
     k = case["n_times"]
     with ctx.sut("C06/price/n_times"):
         pk = price(n_times=k)
         torch.manual_seed(seed)
-        singles = [float(hedger.price(deriv, hedge=hedge, n_paths=n)) for _ in range(k)]
+        singles = [float(hedger.price(deriv, hedge=hedge, n_paths=n, **({"init_state": init} if init is not None else {}))) for _ in range(k)]
     ctx.check(abs(float(pk) - sum(singles) / k) <= 16 * eps * (1 + abs(float(pk))), "C06/price/n_times",
               f"price(n_times={k}) = {float(pk)!r} but mean of {k} consecutive evaluations = {sum(singles) / k!r}")
     # (b) payoff + k raises the price by exactly k (cash-invariant criteria)
@@ -368,10 +387,10 @@ SUBS = [
         rule="criterion in {EntropicRiskMeasure, EntropicLoss, IsoelasticLoss, ExpectedShortfall, QuadraticCVaR, OCE(exp), user "
              "HedgeLoss subclasses mean/exp/power/worst/best using the default search}; samples N<=12 with trailing shapes (), "
              "(M), (2,2), constants (1 in 6), scalar/tensor targets, float32/float64. Non-trivial: some column is not constant.",
-        strategy=lambda tier: cash_case(), examples={"quick": 3000, "thorough": 30000}),
+        strategy=lambda tier: cash_case(), examples={"quick": 6400, "thorough": 64000}),
     Sub("price", check_price,
         rule="hedging scenario (float64, 2..24 paths, 2..6 steps, Linear/MLP/Naked/BlackScholes) x criterion in {entropic RM, "
              "entropic loss, ES, QCVaR, user exp/mean via default search}; drawn torch seed fixed for all compared quantities. "
              "Non-trivial: non-constant P&L sample and a non-zero hedge.",
-        strategy=lambda tier: price_case(), examples={"quick": 600, "thorough": 6000}),
+        strategy=lambda tier: price_case(), examples={"quick": 1600, "thorough": 16000}),
 ]
